@@ -92,6 +92,14 @@ def poolStep (p : Pool) (args : List String) : Pool × String :=
   | "update" :: id :: nonce :: sig :: rest =>
     match int? nonce, (findStr "block" rest).bind nat?, findArg "peers" rest, findInt "mnow" rest, findInt "now" rest with
     | some nonce, some block, some peers, some mnow, some now =>
+      if findStr "readfault" rest == some "1" then
+        let (p', failed, r, calls) := p.UpdateReadFault (sigOk sig) (tok id) nonce peers block now mnow (failFn rest)
+        if failed then (p', "err DepositLookup") else
+        match r with
+        | .ok u => (p', s!"ok invalid={joinC (sortStrings u.invalid)} active={joinC (sortStrings u.active)} bal={showBal u.balance}")
+        | .error (.lowBalance c m) => (p', s!"err LowBalance {c} {m} disconnect={joinC (sortStrings (calls.map (·.2)))}")
+        | .error e => (p', showPoolErr e)
+      else
       let (p', r, calls) := p.Update (sigOk sig) (tok id) nonce peers block now mnow (failFn rest)
       match r with
       | .ok u => (p', s!"ok invalid={joinC (sortStrings u.invalid)} active={joinC (sortStrings u.active)} bal={showBal u.balance}")
